@@ -1212,6 +1212,11 @@ def _preorder_relabel(parents):
 def gen_tree(rng, cls, nmax=9, shape=None, pool=None, attr_rate=0.6):
     shape = shape or rng.choice(["wide", "deep", "mixed", "path", "star", "mixed"])
     n = rng.randint(3, nmax)
+    r = rng.random()
+    if r < 0.10:
+        n, shape = 1, "single"            # a node that is root and leaf at once
+    elif r < 0.16:
+        n, shape = 2, "pair"
     fan = 2 if cls == "BinaryNode" else 6
     parents = [None]
     cnt = [0]
@@ -1311,6 +1316,11 @@ def _ints(rng):
 
 def gen_dag(rng, nmax=8):
     n = rng.randint(3, nmax)
+    r = rng.random()
+    if r < 0.10:
+        n = 1
+    elif r < 0.16:
+        n = 2
     pool = NAME_POOLS["distinct"]
     off = rng.randrange(len(pool))
     spec = []
@@ -1604,6 +1614,8 @@ def gen_case(rng, fn=None, cls=None, nmax=9):
     elif fn in ("copy_nodes_from_tree_to_tree", "copy_and_replace_nodes_from_tree_to_tree"):
         case["start"] = 0
         spec2, _, _ = gen_tree(rng, "Node", nmax=5, pool="distinct", attr_rate=0.3)
+        while len(spec2) < 2:
+            spec2, _, _ = gen_tree(rng, "Node", nmax=5, pool="distinct", attr_rate=0.3)
         spec2 = [[p, "t" + nm, at, sl] for p, nm, at, sl in spec2]
         case["tree2"] = spec2
         case["sep2"] = sep
@@ -1716,6 +1728,21 @@ def corpus(prop):
     out.append(("diff-second-sep", dict(base, cls="Node", fn="get_tree_diff_second", tree=t5, start=0, sep="/",
                                         tree2=[[None, "a", {}, 0], [0, "c", {}, 0], [0, "x", {}, 0]], sep2="-",
                                         opts={"only_diff": True})))
+    # degenerate sizes: a node that is root and leaf at once (with a mutable attribute value), a one-child chain
+    one = [[None, "a", {"tags": [1, 2], "meta": {"k": [1]}}, 0]]
+    two = [[None, "a", {"tags": [1]}, 0], [0, "b", {"tags": [2]}, 0]]
+    for fn_, opts_ in (("node_copy", {}), ("deepcopy", {}), ("clone_tree", {}), ("get_subtree", {}),
+                       ("get_subtree", {"max_depth": 1}), ("prune_tree", {"max_depth": 1}),
+                       ("tree_to_dict", {"all_attrs": True}), ("tree_to_nested_dict", {"all_attrs": True}),
+                       ("preorder_iter", {"max_depth": 0}), ("print_tree", {"all_attrs": True})):
+        extra = {"found": 0} if fn_ == "get_subtree" else {"targets": []} if fn_ == "prune_tree" else {}
+        out.append((f"single-{fn_}", dict(base, cls="Node", fn=fn_, tree=one, start=0, opts=opts_, expect_ok=True, **extra)))
+    out.append(("single-binary-copy", dict(base, cls="BinaryNode", fn="node_copy", tree=[[None, "1", {"tags": [1]}, 0]], start=0,
+                                           expect_ok=True)))
+    out.append(("single-dag-copy", dict(base, cls="DAGNode", fn="dag_copy", tree=[[[], "a", {"tags": [1]}, 0]], start=0,
+                                        expect_ok=True)))
+    out.append(("pair-leaf-copy", dict(base, cls="Node", fn="node_copy", tree=two, start=1, expect_ok=True)))
+    out.append(("pair-leaf-subtree", dict(base, cls="Node", fn="get_subtree", tree=two, start=1, found=1, opts={}, expect_ok=True)))
     dg = [[[], "a", {"tags": [1]}, 0], [[], "b", {}, 0], [[0, 1], "c", {"age": 3}, 0], [[2, 0], "d", {}, 0]]
     out.append(("K4-shallow-dag", dict(base, cls="DAGNode", fn="dag_shallow_copy", tree=dg, start=2)))
     out.append(("dag-copy-inner", dict(base, cls="DAGNode", fn="dag_copy", tree=dg, start=2)))
@@ -1809,8 +1836,8 @@ def rule(prop):
             "exporters, copy/deepcopy/copy.copy, clone_tree, get_subtree, prune_tree, get_tree_diff on either argument, "
             "copy_*_from_tree_to_tree on the source, copy_nodes on the copied subtree; DAGNode: copy/deepcopy/copy.copy, dag_iterator, "
             "dag_to_list/dict/dataframe/dot, ancestors/descendants/siblings/go_to) x random option combinations x random start node "
-            "on random Node/BinaryNode trees (3-9 nodes, shapes wide/deep/mixed/path/star, name pools distinct/repeated/affix/special) "
-            "and random DAGs (3-8 nodes, up to 3 parents), scalar and mutable list/dict attribute values; signature before/after, "
+            "on random Node/BinaryNode trees (1-9 nodes: 10% single node that is root and leaf, 6% two nodes; shapes wide/deep/mixed/path/star, name pools distinct/repeated/affix/special) "
+            "and random DAGs (1-8 nodes, same share of one- and two-node DAGs, up to 3 parents), scalar and mutable list/dict attribute values; signature before/after, "
             "identity sets, result tree / DAG, then mutation batches on each side; multi-pair tree-to-tree copies (nested from-nodes, "
             "same node twice) with the copy at every destination compared to its source subtree; tree_to_dot / dag_to_dot on a single "
             "tree and on a list, with style dicts stored on the nodes and defaults set; generators also inspected while suspended "
